@@ -262,7 +262,7 @@ class MPUChunk:
             return 0
 
         bytes_to_write = len(self.data) - rhs_keep - lhs_keep
-        if bytes_to_write < spill_sz:
+        if bytes_to_write < max(spill_sz, write.min_write_sz):
             return 0
 
         if lhs_keep == 0:
